@@ -26,6 +26,10 @@ def _colour_box(cr):
     nargs = c12.network_arg_sets(cr.tier)
     cr.bounded_check(run_contract_enum, "network-ids-box", c12.network_ids, nargs,
                      f"{len(nargs)} edge sets x colour maps: same relay network id iff same source entity and colour (contract evaluated on the real method)")
+    bargs = c12.bidi_arg_sets()
+    cr.bounded_check(run_contract_enum, "bidirectional-pairs-box", c12.bidi, bargs,
+                     f"{len(bargs)} edge sets of up to 3 edges over 3 entities (self-loops and source-less edges included): "
+                     "the pairs routed directly are exactly the edges whose reverse is an edge (contract evaluated on the real method)")
 
 
 def run(tier):
